@@ -88,7 +88,8 @@ def keyMeaning : List (String × String) :=
 def setterMeaning : List (String × String) :=
   [("SetUserDuration", "interval_real"), ("SetConnectTime", "connect"), ("SetSendTime", "send"),
    ("SetLatency", "latency"), ("SetReceiveTime", "receive"), ("SetRequestBytes", "size_out"),
-   ("SetResponseBytes", "size_in"), ("SetUserNet", "net_code"), ("SetUserProto", "proto_code")]
+   ("SetResponseBytes", "size_in"), ("SetUserNet", "net_code"), ("SetUserProto", "proto_code"),
+   ("SetErr", "net_code"), ("SetProtoCode", "proto_code")]
 
 /-- column names of `Sample.fields`, position by position (the structure's own field names) -/
 def modelOrder : List String :=
